@@ -140,3 +140,98 @@ pub fn derive_extra(u: &Universe, key: u64, n_text: usize, n_typed: usize, n_sig
         .collect();
     Extra { throwables, texts, typed, sigs }
 }
+
+// ---------------------------------------------------------------------------------------------
+// corpus files through the strict recogniser (model-based checks on real-world files)
+
+#[derive(Clone, Debug, Serialize, Deserialize)]
+pub struct CorpusAstCase {
+    pub path: String,
+    pub crlf: bool,
+    pub pick: u64,
+    pub max_classes: usize,
+}
+
+/// Universe restricted to a sample of the file's classes (real-world files have thousands).
+pub fn sampled_universe(file: &MapFile, max_classes: usize, pick: u64) -> Universe {
+    use std::collections::BTreeSet;
+    let n = file.blocks.len();
+    let stride = (n / max_classes.max(1)).max(1);
+    let offset = (pick as usize) % stride;
+    let mut oc = BTreeSet::new();
+    let mut rc = BTreeSet::new();
+    let mut om = BTreeSet::new();
+    let mut rm = BTreeSet::new();
+    let mut ps = BTreeSet::new();
+    let mut ranges = Vec::new();
+    for (i, b) in file.blocks.iter().enumerate() {
+        if i % stride != offset {
+            continue;
+        }
+        oc.insert(b.obf.clone());
+        rc.insert(b.orig.clone());
+        for it in &b.items {
+            if let crate::gen::mapping::Item::Method(m) = it {
+                if om.len() < 60 {
+                    om.insert(m.obf.clone());
+                }
+                if rm.len() < 30 {
+                    rm.insert(m.oname.clone());
+                }
+                if ps.len() < 25 {
+                    ps.insert(m.args.clone());
+                }
+                if let Some(r) = m.range {
+                    if ranges.len() < 150 {
+                        ranges.push(r);
+                    }
+                }
+            }
+        }
+    }
+    Universe::from_names(&oc, &rc, &om, &rm, &ps, &ranges, false)
+}
+
+pub fn corpus_ast_cases(quick_classes: usize, thorough_classes: usize, reps: u64, ctx: &crate::engine::Ctx) -> Vec<CorpusAstCase> {
+    let mut out = Vec::new();
+    for p in super::c02::corpus_files() {
+        for crlf in [false, true] {
+            for r in 0..ctx.tier.pick(1, reps) {
+                out.push(CorpusAstCase { path: p.clone(), crlf, pick: ctx.seed.wrapping_add(r * 7919), max_classes: ctx.tier.pick(quick_classes, thorough_classes) });
+            }
+        }
+    }
+    out
+}
+
+/// Load a corpus file and convert it with the strict recogniser; `None` = some line is not classified or the file
+/// leaves the representable domain (no model-based claim is made then).
+pub fn load_corpus_ast(c: &CorpusAstCase) -> Result<Option<(Vec<u8>, MapFile)>, Fail> {
+    let mut bytes = std::fs::read(&c.path).map_err(|e| Fail::new("harness-io", format!("{}: {e}", c.path)))?;
+    if c.crlf {
+        bytes = crate::gen::mutate::to_crlf(&bytes);
+    }
+    let Some(ast) = crate::model::lineparse::to_ast(&bytes) else {
+        return Ok(None);
+    };
+    // representable domain, decided on the AST (independent of the crate's parser)
+    let ok = ast.blocks.iter().all(|b| {
+        b.items.iter().all(|i| match i {
+            crate::gen::mapping::Item::Method(m) => {
+                let nums: Vec<u64> = m.range.iter().flat_map(|(a, b)| [*a, *b]).chain(match m.olines {
+                    crate::gen::mapping::OLines::None => vec![],
+                    crate::gen::mapping::OLines::S(a) => vec![a],
+                    crate::gen::mapping::OLines::SE(a, b) => vec![a, b],
+                }).collect();
+                nums.iter().all(|n| *n < crate::gen::mapping::MAX_REPR + 1)
+            }
+            crate::gen::mapping::Item::SourceFile(n) => !n.is_empty(),
+            crate::gen::mapping::Item::Header { key, value } => !(key.trim() == "sourceFile" && value.as_deref().map_or(false, |v| v.trim().is_empty())),
+            _ => true,
+        })
+    });
+    if !ok {
+        return Ok(None);
+    }
+    Ok(Some((bytes, ast)))
+}
